@@ -69,7 +69,7 @@ ASSUMPTIONS = [
 MUST_REACH = {"inventory_nodes": 600, "text_roundtrips": 200, "legacy_llsd_roundtrips": 200, "ais_roundtrips": 200,
               "llsd_wire_roundtrips": 150, "model_roundtrips": 60, "ais_model_roundtrips": 40, "enum_members_swept": 100, "optional_absent": 300,
               "metadata_present": 100, "wearables": 40, "animations": 80, "anim_versions_covered": 2, "meshes": 40,
-              "mesh_segments_covered": 6, "meshes_edited_after_raw_parse": 15, "xfer_sequences": 3000, "xfer_sequences_turbo": 1000, "out_of_order_completions_turbo": 100, "transfer_sequences": 1500, "out_of_order_completions": 500,
+              "mesh_segments_covered": 6, "meshes_edited_after_raw_parse": 15, "xfer_sequences": 3000, "xfer_sequences_turbo": 1000, "paced_transfers": 4, "parsed_models_edited_then_parsed_again": 30, "paced_transfers_completed": 3, "out_of_order_completions_turbo": 100, "transfer_sequences": 1500, "out_of_order_completions": 500,
               "duplicate_arrivals": 500, "boundary_sizes_covered": 20, "tz_covered": 3}
 
 TEXT_POOL = ["", "a", "New Script", "Object", "hello world", "é中\U0001f600", "quote\"s 'single'", "back\\slash", "{", "}", "a = b",
@@ -276,6 +276,8 @@ def inventory(ctx, n_models):
             ctx.violation("inventory-text:raises:" + type(e).__name__, "legacy text round trip raised", dict(wit, exc=repr(e)[:300]))
             back = None
         if back is not None:
+            # (the objects the parser handed out, before anything here replaces them for comparison)
+            parsed_metadata = [n.metadata for n in back.nodes.values() if isinstance(getattr(n, "metadata", None), dict)]
             ctx.count("text_roundtrips", len(nodes))
             ctx.count("model_roundtrips")
             ctx.ev()
@@ -286,6 +288,28 @@ def inventory(ctx, n_models):
                 tmodel.add(text_view(n))
             if len(back.nodes) != len(nodes) or _norm_model(back) != tmodel:
                 ctx.violation("inventory-text:model-differs", "the re-parsed model is not equal to the model", dict(wit, text=text[:1200]))
+            else:
+                # a parsed model is the caller's to edit: what was changed in one parse result must not show up in the next
+                # parse of the same text
+                touched = 0
+                for md in parsed_metadata:
+                    for v in list(md.values()):
+                        if isinstance(v, dict):
+                            v["hv-edited"] = 1
+                        elif isinstance(v, list):
+                            v.append("hv-edited")
+                    md["hv-edited"] = "after parsing"
+                    touched += 1
+                if touched:
+                    ctx.count("parsed_models_edited_then_parsed_again")
+                    try:
+                        back2 = InventoryModel.from_str(text)
+                        if len(back2.nodes) != len(nodes) or _norm_model(back2) != tmodel:
+                            ctx.violation("inventory-text:parse-depends-on-earlier-result", "parsing the same text again after the "
+                                          "first result was edited gives a model that differs from the original", dict(wit, text=text[:1200]))
+                    except Exception as e:
+                        ctx.violation("inventory-text:raises:" + type(e).__name__, "parsing the same text a second time raised",
+                                      dict(wit, exc=repr(e)[:300]))
             if [n.node_id for n in back.ordered_nodes] != [n.node_id for n in model.ordered_nodes]:
                 ctx.violation("inventory-text:order-differs", "node order changed", wit)
         # ---- legacy LLSD, model level, in memory and through the LLSD codecs
@@ -747,6 +771,62 @@ def arrival_sequences(n, extra, rng, cap):
     return seqs
 
 
+def paced_transfers(ctx, rng):
+    """The receiving side's pump, driven in (shifted) time: chunks that arrive steadily - each within the receiver's patience
+    of 5 s after the previous one, the whole transfer taking much longer - complete the transfer; a sender that really goes
+    silent for longer than that fails it."""
+    from ..timeshift import TimeShift
+    loop = asyncio.get_event_loop_policy().get_event_loop()
+    payload = bytes((i * 13 + 5) & 0xFF for i in range(4 * xm.MAX_CHUNK_SIZE + 17))
+    packets = [bytes(_SER.serialize(m)) for m in sender_packets(loop, payload, False)]
+    for gaps in ([2.0] * len(packets), [4.5] * len(packets), [0.5, 4.9, 0.1, 4.9, 4.9][:len(packets)], [1.0, 6.0] + [1.0] * (len(packets) - 2)):
+        silent = any(g > 5.0 for g in gaps)
+        with TimeShift() as clock:
+            holder = _Holder()
+            mgr = xm.XferManager(holder)
+            state = {}
+
+            async def go():
+                xfer = mgr.request(xfer_id=4242, file_name=b"x", turbo=bool(len(gaps) % 2))
+                state["xfer"] = xfer
+                await asyncio.sleep(0)
+                for data, gap in zip(packets, gaps):
+                    clock.advance(gap)
+                    for _ in range(3):
+                        await asyncio.sleep(0)
+                    if xfer.done():
+                        break
+                    holder.message_handler.handle(_DES.deserialize(data))
+                    for _ in range(3):
+                        await asyncio.sleep(0)
+            try:
+                loop.run_until_complete(go())
+            except Exception as e:
+                ctx.violation("paced-xfer:raises", "driving a paced transfer raised", {"gaps": gaps, "exc": repr(e)[:200]})
+                continue
+            xfer = state["xfer"]
+            wit = {"gaps": gaps, "chunks": len(packets), "total_seconds": sum(gaps)}
+            ctx.ev()
+            ctx.count("paced_transfers")
+            failed = xfer.done() and not xfer.cancelled() and xfer._future.exception() is not None
+            if failed and not xfer.size_known.cancelled() and xfer.size_known.done():
+                xfer.size_known.exception() if xfer.size_known.exception() else None     # (retrieved: nothing to log at teardown)
+            if silent:
+                if not failed:
+                    ctx.violation("paced-xfer:silence-not-noticed", "a sender silent for longer than the receiver's patience did not "
+                                  "fail the transfer", wit)
+                continue
+            if failed or not xfer.done():
+                ctx.violation("paced-xfer:steady-transfer-failed", "a transfer whose chunks arrived steadily (every gap within the "
+                              "receiver's patience) did not complete", dict(wit, done=xfer.done(), failed=failed))
+                continue
+            if bytes(xfer.reassemble_chunks()) != payload:
+                ctx.violation("xfer-reassembly-differs", "the reassembled payload is not the payload that was sent", wit)
+                continue
+            ctx.count("paced_transfers_completed")
+            ctx.nontrivial(("paced", tuple(gaps)))
+
+
 def transfers(ctx, share, nshares):
     rng = ctx.rng
     loop = asyncio.get_event_loop_policy().get_event_loop()
@@ -872,6 +952,8 @@ def run(ctx):
     animations(ctx, ctx.pick(50, 2000))
     meshes(ctx, ctx.pick(25, 1000))
     transfers(ctx, ctx.shard, ctx.nshards)
+    if ctx.shard == 0:
+        paced_transfers(ctx, ctx.rng)
 
 
 def replay(ctx, w):
